@@ -207,7 +207,7 @@ def run(ctx):
         "Eval vm_compute in (callback_mismatch tables0 c_structs py_classes py_props py_functypes py_setter_callbacks c_fun_types).",
         "Eval vm_compute in (callback_props py_classes py_props).",
         "Eval vm_compute in (doc_deviations tables0 doc_rules c_enums c_decls py_dicts py_named_callbacks doc_py_options doc_c_options doc_c_callbacks doc_pairs doc_enum_tokens).",
-        "Eval vm_compute in (map (fun r => let '(p, c, pr, d, _) := r in (p, c, pr, d)) doc_rules).",
+        "Eval vm_compute in doc_rules.",
         "Eval vm_compute in doc_py_options.",
         "Eval vm_compute in doc_pairs.",
         "Eval vm_compute in py_named_callbacks.",
@@ -253,12 +253,14 @@ def run(ctx):
            "option_pairs": [list(x) for x in option_pairs], "symbols": [list(x) for x in symbols], "dead_modules": dead,
            "expect_pkg": os.path.realpath(os.path.join(vlib.REPO, "rebound")), "expect_lib": os.path.realpath(libdir),
            "tmpdir": os.path.join(vlib.BUILD, "c18"), "callback_props": [list(x) for x in cbprops],
-           "doc_rules": [list(x) for x in docrules], "doc_py": [list(x) for x in docpy], "doc_pairs": [list(x) for x in docpairs],
+           "doc_rules": [list(x) for x in docrules], "doc_rules_full": [list(x) for x in docrules], "doc_py": [list(x) for x in docpy], "doc_pairs": [list(x) for x in docpairs],
            "named_callbacks": [[a, b, c, list(d)] for a, b, c, d in namedcb], "named_prefixes": [list(x) for x in ncpre],
            "ctypes": {s_["name"]: dict(zip(s_["members"], s_["types"])) for s_ in sj["structs"]}}
     jp = os.path.join(vlib.BUILD, "c18", "job_%d.json" % os.getpid())
     json.dump(job, open(jp, "w"))
     r = vlib.run_py(libdir, os.path.join(vlib.ROOT, "tools", "c18_probe.py"), [jp], timeout=300)
+    # edge-of-domain probe: its own process, so that a crash is attributed to it (and to the stage it was in)
+    re_ = vlib.run_py(libdir, os.path.join(vlib.ROOT, "tools", "c18_edges.py"), [jp], timeout=300)
     os.remove(jp)
     m = re.search(r"^C18PROBE (.*)$", r.stdout, re.M)
     if "C18PROBE-WRONG-PACKAGE" in r.stdout:
@@ -273,6 +275,17 @@ def run(ctx):
                       ("signal" if sig else (r.stderr.strip().splitlines() or ["?"])[-1][:200]))
         return
     probe = json.loads(m.group(1))
+    me = re.search(r"^C18EDGES (.*)$", re_.stdout, re.M)
+    if re_.returncode != 0 or not me:
+        stages = re.findall(r"C18EDGE-STAGE (\S+)", re_.stderr)
+        ctx.violation("edge:crash:%s" % (stages[-1] if stages else "start"),
+                      {"how": "tools/c18_edges.py on the library built from the tree", "returncode": re_.returncode, "last_stage": stages[-1:] ,
+                       "stderr": re_.stderr[-1200:]}, True,
+                      "the edge-of-domain probe died (status %d) in stage %s" % (re_.returncode, stages[-1] if stages else "start"))
+    else:
+        edges = json.loads(me.group(1))
+        probe["mismatch"] += edges["mismatch"]
+        probe["checked"]["edges"] = edges["checked"]
 
     # ---- correspondence 2: Coq ctypes model == ctypes
     bad2 = []
@@ -295,6 +308,7 @@ def run(ctx):
         ctx.case(key=("symbol", sym))
     ctx.extra["exhaustive"] = True
     ctx.extra["probe_checked"] = probe["checked"]
+    ctx.extra["probe_mismatches"] = [("%s %s.%s: %s" % (m_["what"], m_["struct"], m_["member"], m_["detail"]))[:400] for m_ in probe["mismatch"][:40]]
     ctx.extra["input_distribution"] = {"classes": len(classes), "fields": len(name_pairs), "option_items": len(option_pairs),
                                        "symbols": len(symbols), "c_records": len(sj["structs"]), "c_enum_constants": len(consts)}
 
@@ -302,6 +316,8 @@ def run(ctx):
     reported = set()
     for mm in probe["mismatch"]:
         if mm["what"].startswith("option-"):
+            key = "option:%s.%s" % (mm["struct"], mm["member"])
+        elif mm["what"] == "edge-options":
             key = "option:%s.%s" % (mm["struct"], mm["member"])
         elif mm["what"].startswith("doc-"):
             key = "doc:%s.%s" % (mm["struct"], mm["member"])
